@@ -121,12 +121,24 @@ def gen_source(rnd, size_class, allow_empty, allow_extreme=True):
         spec["pos"] = [f_(v) for v in spec["pos"]]
         spec["neg"] = [f_(v) for v in spec["neg"]]
         spec["style"] = "extreme"
-    if rnd.random() < 0.08 and not spec["presorted"] and spec["style"] != "extreme":
+    if allow_extreme and spec["dtype"] == "int64" and rnd.random() < 0.15:
+        # the two classes come from different places and have different dtypes; integer scores (ids, hashes, counts)
+        # beyond 2**53, where float64 can no longer tell neighbours apart
+        big = 2 ** 53
+        spec["pos"] = [big + 2 * int(v) + 1 for v in spec["pos"]]
+        if rnd.random() < 0.5:
+            spec["dtype_neg"] = "float64"
+            spec["neg"] = [float(v) for v in spec["neg"]]
+        else:
+            spec["dtype"], spec["dtype_neg"] = "uint64", "int64"
+            spec["neg"] = [big + 2 * int(v) + 1 for v in spec["neg"]]
+        spec["style"] = "bigint"
+    if rnd.random() < 0.08 and not spec["presorted"] and spec["style"] not in ("extreme", "bigint"):
         spec["user_init"] = rnd.choice(["negating", "extra_arg"])
-    elif rnd.random() < 0.12 and not spec["presorted"]:
+    elif rnd.random() < 0.12 and not spec["presorted"] and spec["style"] != "bigint":
         spec["via"] = "from_labels"
         spec["pos_label"] = rnd.choice([1, 1, "p", True, 2])
-    if spec["dtype"] == "int64":
+    if spec["dtype"] == "int64" and spec["style"] != "bigint":
         spec["pos"] = [int(v) for v in spec["pos"]]
         spec["neg"] = [int(v) for v in spec["neg"]]
         r_dt = rnd.random()
